@@ -111,6 +111,7 @@ def ext_value(rnd, depth):
 
 
 DIRECTED_EXT = [
+    datetime.datetime(2500, 1, 1, 0, 0, 0, 1), [datetime.datetime(9999, 12, 31, 23, 59, 59, 999999)], datetime.datetime(2020, 5, 17, 13, 45, 59, 123457),
     [(1, 2)], [[(1, 2)]], [({"a": (1,)},)], {"k": ({"x": [1, (2, 3)]},)}, [set([1])], (set([2]),), [b"ab"], [(b"ab",)], {"k": [uuid.UUID(int=5)]},
     [[[(1, [2, (3,)])]]], ((), [], {}), [2 ** 63], [(2 ** 64,)], {"k": 2 ** 127}, [complex(1, 2)], [(complex(0, -1),)],
 ]
@@ -161,6 +162,16 @@ def has_negzero_complex(v):
     return False
 
 
+def has_far_datetime(v):
+    if isinstance(v, datetime.datetime):
+        return v.year >= 2200
+    if isinstance(v, (list, tuple, set, frozenset)):
+        return any(has_far_datetime(x) for x in v)
+    if isinstance(v, dict):
+        return any(has_far_datetime(x) for x in v.values())
+    return False
+
+
 def attempt(f):
     try:
         return True, f()
@@ -177,6 +188,13 @@ def check_local(name, ser, v, lossless):
         ok2, r2 = attempt(lambda: ser.loads(ser.dumps(r1)))
         if ok and ok2 and not same(r1, r2) and "C01-serpent-complex-negative-zero" not in KNOWN:
             KNOWN.append("C01-serpent-complex-negative-zero")
+        return None
+
+    if name == "msgpack" and has_far_datetime(v):
+        # listed known finding: the msgpack datetime extension is a C double - microseconds drift far from the epoch
+        ok, r1 = attempt(lambda: ser.loads(ser.dumps(v)))
+        if (not ok or not same(r1, v)) and "C01-msgpack-datetime-double-precision" not in KNOWN:
+            KNOWN.append("C01-msgpack-datetime-double-precision")
         return None
 
     def call(args, kwargs):
